@@ -101,9 +101,9 @@ PROPS["C07"] = {
 PROPS["C02"] = {
     "engine": "api", "properties_file": "Properties/C02.v", "env": {"TZ": "UTC"},
     "model_files": ["Model/WireTypes.v", "Model/Codec.v", "Model/Interp.v", "Model/Ops.v", "Model/CasesApi.v", "Spec/Protocol.v", "Spec/ApiSpec.v", "Spec/ReplySpec.v", "Gen/Layouts.v"],
-    "gen_obligations": ["Proofs/ReplyProofs.v:resp_match (generated reply layouts = flat protocol table, per operation)", "Proofs/ReplyProofs.v:resp_wf"],
-    "technique": "Coq: generated reply layouts proved equal to a flat protocol table; per-field decoder = protocol decoding for all byte strings; flat result specification evaluated as oracle on the implementation's results",
-    "level_text": "Proved: the reply struct of each of the 31 operations (regenerated from messages/*.go every run) is the flat protocol table; for every field kind and ALL byte strings of its width the decoder's verdict equals the protocol decoding (value / rejected / no value - never another in-domain value); for all 2^512 byte strings decoding a reply never panics, fails only for a bad header or an out-of-domain field, and each decoded field is the protocol decoding or its zero; only a 64-byte datagram with the addressed serial number is decoded. The per-operation result mapping (sentinels card 0/0xffffffff, event index 0, type 0xff, profile 0, echo mismatches, status event iff index != 0, address completion) is specified flat in Spec/ReplySpec.v (reading bytes by offset) and is evaluated as the oracle on every result the implementation returns; the end-to-end theorem 'api result admits reply_spec for all payloads' is stated in DESIGN.md as C02_fields and is NOT yet proved (partial).",
+    "gen_obligations": ["Proofs/ReplyProofs.v:resp_match (generated reply layouts = flat protocol table, per operation)", "Proofs/ReplyProofs.v:resp_wf", "Proofs/ReplyE2E.v:ok_case (field names used by the result mappers resolve in the generated structs)"],
+    "technique": "Coq: generated reply layouts proved equal to a flat protocol table; per-field decoder = protocol decoding for all byte strings; end-to-end theorem (API result admitted by the flat reply specification for all payloads, all operations); the same specification evaluated as oracle on the implementation's results",
+    "level_text": "Proved END TO END (C02_reply_interpreted, C02_api_result_admitted): for every operation, every configuration and ALL payloads behind a correct 8-byte header, the result the API model computes from the decoded reply is admitted by the flat protocol specification Spec/ReplySpec.v (which reads bytes by offset and names no struct or field): every result field is the protocol decoding of its bytes, the sentinels (card 0/0xffffffff, event index 0, type 0xff, profile 0), echo checks, 'status event iff index != 0' and address completion are honoured, a field outside its domain makes the call fail or comes back as its 'no value', decoding never panics. Ingredients, each a theorem of its own: the reply struct of each of the 31 operations (regenerated from messages/*.go every run) is the flat protocol table; for every field kind and ALL byte strings of its width the decoder's verdict equals the protocol decoding; only a 64-byte datagram with the addressed serial number is decoded. Tie: the same specification is evaluated as the oracle on every result the implementation returns, incl. a stream decoded under daylight-saving zones on the days of the change.",
     "level_note": "Trusted: as C01; the flat reply specification Spec/ReplySpec.v (hand-written from the protocol table and the property text).",
     "rule": "every reply-bearing operation x rounds: a valid reply (echo/sentinel fields forced to requested / 0 / 0xffffffff / other), then per field of the reply struct: byte fields over a boundary pool (thorough: all 256 values), HH:mm byte pairs (boundary + random), 20 date patterns (valid shapes, day/month 0/13/32, Feb 29/30, nibbles A-F in each position, 00000000, 00010101), date-time x time patterns, system date/time patterns, bit-walks/zero/all-ones of multi-byte integers, random and sparse-random payloads; GetStatus also with protocol id 0x19. Non-trivial = all (header correct); distinct = distinct Coq case terms.",
     "trusted_base": API_TRUST,
